@@ -22,6 +22,7 @@ from sa import core, aggtables as AT
 from sa.pyfront import Program
 
 RULES = {
+    "R-C04-d": "the counters read by the missing test mean the same thing in the grand total as in the cells (corner = all-rows instance of the cell value, per fact column): the missing test of a reconstructed common cell then sees that cell's own rows",
     "R-C04-a": "missing-cell predicate table per class x policy x format equals the documented rule",
     "R-C04-b": "pair-format validity = ~(mask used to write the sentinel); sentinel = return_missing_as[0]; NaN and pair formats use the same mask",
     "R-C04-c": "exact zero tests only on integral counters or after adjust_zeros(new=0)",
@@ -41,11 +42,13 @@ def main(tier):
             n_b += AT.rule_format_coherence(prog, C, mod, pre + name, "%s (%s)" % (name, "index cube" if mod == "ffuncs" else "array cube"),
                                             cfgs=AT.weight_modes(name))
     n_c = AT.rule_exact_tests(prog, C)
+    n_d = AT.rule_corner_cell(prog, C, "R-C04-d")
     for rule, status, where, cons, detail, wit in C.items:
         rep.add(rule, where, cons, status, detail, True, wit)
     rep.floor("R-C04-a", 100, n_a)
     rep.floor("R-C04-b", 100, n_b)
     rep.floor("R-C04-c", 20, n_c)
+    rep.floor("R-C04-d", 30, n_d)
     rep.analysed["models"] = len(AT._cache)
     return rep.finish()
 
